@@ -159,7 +159,7 @@ func TestVfFailover(t *testing.T) {
 				if kind == "client" {
 					var prim ClientTransport
 					if p.Prim != "none" {
-						primD = &vfConnDouble{fail: p.Prim == "failing", part: part, raddr: &net.TCPAddr{IP: net.ParseIP(g.ip("10.0.5.5")), Port: 40001}}
+						primD = &vfConnDouble{fail: p.Prim == "failing", part: part, raddr: &net.TCPAddr{IP: net.ParseIP(g.ip("10.0.5.5")), Port: 24001}}
 						pt, _ := NewTCPClientTransportWithConn(primD)
 						prim = pt
 					}
